@@ -682,6 +682,15 @@ BatchStep(st0, evs, gv, eng) ==
         IF st.status # "running" THEN st
         ELSE SyncDrain([st EXCEPT !.queue = @ \o [i \in 1..Len(evs) |-> PlainEv(evs[i])]], gv, 1, eng)
 
+\* stop(): no-op when uninitialized or stopped; otherwise status "stopped" and the stop hook
+StopStep(st) ==
+  IF st.status \in {"uninitialized", "stopped"} THEN st
+  ELSE Log([st EXCEPT !.status = "stopped"], L("interp_stop", "", "", {}))
+
+\* start() on an interpreter that is not fresh: refuses on a stopped one, otherwise does nothing
+RestartStep(st) ==
+  IF st.status = "stopped" THEN [st EXCEPT !.err = <<"InvalidConfigError", "restart", "">>] ELSE st
+
 CanStep(st, evtype, gv) ==
   LET r == Select(st.config, PlainEv(evtype), gv, "can")
   IN [st EXCEPT !.out = @ \o r.log \o <<L("can", IF r.err = NoErr /\ r.sel # <<>> THEN "T" ELSE "F", "", {})>>]
